@@ -3,7 +3,7 @@ PROP = dict(
     make=["build/bin/c08", "build/gen/x86_forms.txt"],
     quick=dict(cases=160000, max_size=60, workers=16),
     thorough=dict(cases=5000000, max_size=80, workers=16, timeout=7200),
-    rule=("rapidcheck sequences of emitter calls (x86-32 / x86-64: ISA-DB forms instantiated by gen/x86inst.h incl. lock/rep/xacquire, {k}{z}{er}{sae}, extra register, "
+    rule=("Session 2: a quarter of the cases start with 1-3 labels created through CodeHolder::new_label_id() before any emitter is attached (label ids of the emitter start above 0). rapidcheck sequences of emitter calls (x86-32 / x86-64: ISA-DB forms instantiated by gen/x86inst.h incl. lock/rep/xacquire, {k}{z}{er}{sae}, extra register, "
           "random option bits, inline comments, plus hand-written label shapes jmp/jcc/call/loop/lea/mov/AVX-512 [label]; AArch64: 66 register/immediate/shift/extend/"
           "load-store/vector shapes with 0..6 operands plus b/bl/b.cond/cbz/tbz/adr/adrp/ldr-literal), labels (anonymous, named, duplicates), bind, align, embed, "
           "embed_data_array, embed_const_pool, embed_label, embed_label_delta, comments, new sections and section switches, interleaved with node-list edits "
